@@ -10,14 +10,14 @@ def check(run, replay):
     binary = run.build("queryrun")
     if not replay:
         qc.model_check_laws(run, thorough)
-    n = 20000 if thorough else 2500
+    n = 8000 if thorough else 2500
     cases = qc.gen_cases(run, n, 5, "a")
     viol, executed, used, tts = [], 0, 0, 0
     samples = []
     plans = [(["-indexes", "all", "-churn"], "early+history"), (["-indexes", "all", "-late", "-timetravel", "3"], "late"), (["-indexes", "all", "-timetravel", "5"], "early")]
     for extra, name in plans:
         try:
-            res = qc.run_cases(run, binary, cases, extra, None if thorough else "55s")
+            res = qc.run_cases(run, binary, cases, extra, "400s" if thorough else "55s")
         except vlib.Crash as c:
             viol.append({"property": "C07", "kind": "node-panic", "msg": "DefraDB died while answering an index-served query (%s): %s\n%s" % (name, c.head, c.stack[:1500])})
             continue
